@@ -240,6 +240,15 @@ def draw_meta(data, tier):
     else:
         td = P.draw_tensor_desc(data, cfg, tier, rank=rank, allow_drop=False)
     td['drop'] = 0
+    if not isdiag and P.chance(data, 1, 3) and len(td['legs']) >= 2:
+        # legs that look the same after reversing their order (one table, palindromic signature): a lazily transposed tensor then has the
+        # same struct as a materialised one, and only the stored permutation tells them apart
+        k = len(td['legs'])
+        td['legs'] = [td['legs'][0]] * k
+        half = [data.draw(st.sampled_from([1, -1])) for _ in range((k + 1) // 2)]
+        td['s'] = (half + half[:k // 2][::-1])[:k]
+        pick = [tuple(data.draw(st.sampled_from(td['legs'][0]['t']))) for _ in range(k)]
+        td['n'] = list(C.gsum(cfg['sym'], pick, td['s']))
     drops = [data.draw(st.integers(0, 2 ** 12 - 1)), data.draw(st.integers(0, 2 ** 12 - 1))]
     return {'cfg': cfg, 'td': td, 'drops': drops, 'level': data.draw(st.sampled_from(LEVELS)),
             'dtypes': [data.draw(st.sampled_from(['float64', 'complex128'])) for _ in range(3)],
@@ -306,6 +315,29 @@ def execute_meta(desc):
             raise Violation('meta:round_trip', f'restored tensor cannot be compared with the original: {e}')
         if dd != 0:
             raise Violation('meta:round_trip', f'combine_data_and_meta(vector, meta) differs from the serialised tensor: norm of difference {dd}')
+    # a meta taken from a freshly built tensor with the same logical legs (no pending permutation): a lazily transposed tensor must either be
+    # serialised in the layout that meta describes or be rejected - never written in its own storage order
+    for t in (a, b):
+        if t.isdiag or tuple(t.trans) == tuple(range(t.ndim_n)):
+            continue
+        fresh = yastn.zeros(config, legs=t.get_legs(), n=t.n, dtype=t.yastn_dtype)
+        if fresh.size == 0:
+            continue
+        _, meta2 = yastn.split_data_and_meta(fresh.to_dict(level=lv), squeeze=True)
+        try:
+            v2, m2 = yastn.split_data_and_meta(t.to_dict(level=lv, meta=meta2), squeeze=True)
+        except YastnError:
+            labels.append('lazy_tensor_vs_materialised_meta:rejected')
+            continue
+        labels.append('lazy_tensor_vs_materialised_meta:serialised')
+        vv = v2 if lv >= 2 else config.backend.to_tensor(np.asarray(v2), dtype='complex128' if np.iscomplexobj(np.asarray(v2)) else 'float64')
+        back = yastn.Tensor.from_dict(yastn.combine_data_and_meta(vv, meta2))
+        try:
+            dd = (back - t).norm()
+        except YastnError as e:
+            raise Violation('meta:lazy_round_trip', f'a lazily transposed tensor serialised against the meta of a materialised one cannot be compared after the round trip: {e}')
+        if dd != 0:
+            raise Violation('meta:lazy_round_trip', f'a lazily transposed tensor serialised against the meta of a materialised tensor with the same legs comes back different: norm of difference {dd}')
     al, be = C.cplx(desc['amps'][0]) if isinstance(desc['amps'][0], dict) else desc['amps'][0], C.cplx(desc['amps'][1]) if isinstance(desc['amps'][1], dict) else desc['amps'][1]
     vc = vec(al * a + be * b)
     ref = al * va + be * vb
